@@ -347,17 +347,9 @@ void explore(const std::string &unit, int depth)
 {
   const std::string tag = unit + "/" + TName<T>::s();
   const int A = (int)WorldT<T>::ops().size();
-  const int nshards = 64;
-  vr::run_sharded(nshards, [&](int shard, long long resume_after) {
-    sq::shard_begin(tag, shard, resume_after);
-    sq::Explorer ex(A, depth);
-    ex.tag = tag;
-    ex.run = [](const std::vector<int> &h, const std::string &rp) { return run_history<WorldT, T>(h, rp, false); };
-    ex.sigctx = [](const std::vector<int> &h) {
-      return std::string(WorldT<T>::kind()) + "|crash during " + (h.empty() ? std::string("setup") : WorldT<T>::ops()[h.back()].cls);
-    };
-    ex.go(shard, nshards, resume_after);
-  });
+  sq::explore_tree(
+      tag, A, depth, 64, [](const std::vector<int> &h, const std::string &rp) { return run_history<WorldT, T>(h, rp, false); },
+      [](const std::vector<int> &h) { return std::string(WorldT<T>::kind()) + "|crash during " + (h.empty() ? std::string("setup") : WorldT<T>::ops()[h.back()].cls); });
 }
 
 template <template <typename> class WorldT>
